@@ -88,6 +88,7 @@ def shard_main(pid, specpath, outpath):
             mod.run_shard(spec, acc)
         except Exception:
             acc.inconc('shard crashed: ' + traceback.format_exc()[-1500:])
+            acc.count('shard_crashes')
     tmp = outpath + '.tmp'
     with open(tmp, 'wb') as f:
         pickle.dump(acc.dump(), f)
@@ -171,12 +172,19 @@ def check_main(pid, tier, seed, replay=None):
 
     if new:
         return 1
-    if missing or (acc.evaluations == 0) or shard_fail:
+    crashes = acc.counters.get('shard_crashes', 0)
+    too_many = acc.counters.get('inconclusive_events', 0) * 10 > max(acc.evaluations, 1)
+    if missing or (acc.evaluations == 0) or shard_fail or crashes or too_many:
         reason = []
         if missing:
             reason.append('monitors never evaluated: ' + ','.join(missing))
         if acc.evaluations == 0:
             reason.append('no case executed')
+        if crashes:
+            reason.append('%d shard(s) crashed: %s' % (crashes, ' | '.join(acc.inconclusive[:2])[-600:]))
+        if too_many:
+            reason.append('%d inconclusive cases of %d: %s' % (
+                acc.counters.get('inconclusive_events', 0), acc.evaluations, ' | '.join(acc.inconclusive[:3])[-400:]))
         for idx, rc, out in shard_fail[:3]:
             reason.append('shard %d -> %r' % (idx, rc))
         print('INCONCLUSIVE property=%s reason=%s' % (pid, '; '.join(reason)))
